@@ -261,7 +261,16 @@ def run_check(prop, spec, tier, replay=None):
             rr = {"impl": blocks, "impl_raw": corr.split_ops(raw, True), "root_lib": msmgen.renumber(md["root"], corr.read_ids(exe))}
             mv = spec["monitor"](rr["root_lib"], cfg, ops, blocks, stats, rr) if spec.get("monitor") else []
             agrees = r.get("bad") or r["ok"]
-            if mv or kf.get("expect") == "model-agrees":
+            sig = kf.get("signature")
+            sig_seen = True
+            if sig:
+                blk = blocks[sig["op_index"]] if sig["op_index"] < len(blocks) else []
+                text = "\n".join(blk) + "\n"
+                if "contains" in sig:
+                    sig_seen = sig["contains"] in text
+                if "absent" in sig:
+                    sig_seen = sig_seen and (sig["absent"] not in text.replace("\n", " \n"))
+            if mv or (kf.get("expect") == "model-agrees" and sig_seen):
                 known_lines.append("KNOWN-FINDING: property=%s %s (%s)" % (prop, kf["what"], kf["id"]))
             if not agrees:
                 mismatches.append({"machine": kf["id"], "cfg": cfg, "kind": "trace", "detail": r.get("first_diff"), "md": md, "ops": ops})
